@@ -598,6 +598,34 @@ def combinator_programs():
         [S("search-sorted"), -3, S("inc")], [S("search-sorted"), 5, L([S("i")], [S("probe"), Q(S("i")), S("i")], [S("if"), [S("="), S("i"), 3], [S("car"), 5], []])], [S("search-sorted"), STR("x"), S("inc")],
         [S("search-sorted"), 4, Q(S("nosuch"))], [S("search-sorted"), 6, Q(S("inc"))], [S("search-sorted"), 3, 5],
     ]
+    # a QUOTED SYMBOL given where a function is expected names the binding of the current package, whatever the name is
+    # bound to lexically at the call site (a function, a non-function, a local function)
+    LOC = L([S("x"), S("&rest"), S("r")], [S("probe"), Q(S("local")), S("x")], [S("list"), Q(S("local")), S("x")])
+    def designators(name):
+        q = Q(S(name))
+        return [[S("map"), Q(S("list")), q, Q([1, 2])], [S("foldl"), Q(S("sub")), 10, Q([1, 2])] if name == "sub" else [S("select"), Q(S("list")), q, Q([1, 2])],
+                [S("funcall"), q, 1] if name != "sub" else [S("funcall"), q, 5, 1], [S("apply"), q, Q([7])] if name != "sub" else [S("apply"), q, Q([7, 1])],
+                [S("any?"), q, Q([3])] if name != "sub" else [S("unpack"), q, Q([4, 1])], [S("funcall"), [S("compose"), q, q], 1] if name != "sub" else [S("funcall"), [S("flip"), q], 1, 9],
+                [S("stable-sort"), Q(S("sub")), [S("list"), 2, 1]] if name == "sub" else [S("search-sorted"), 3, q],
+                [S("reject"), Q(S("vector")), q, [S("vector"), 1]] if name != "sub" else [S("foldr"), q, 10, Q([1, 2])]]
+    for name in ("inc", "sub"):
+        for binder in ("let", "flet", "labels", "param", "param-nonfun", "let-nonfun", "dotimes", "macrolet"):
+            for call in designators(name):
+                if binder == "let":
+                    f = [S("let"), [[S(name), LOC]], call]
+                elif binder in ("flet", "labels"):
+                    f = [S(binder), [[S(name), [S("x"), S("&rest"), S("r")], [S("list"), Q(S("local")), S("x")]]], call]
+                elif binder == "param":
+                    f = F(L([S(name)], call), LOC)
+                elif binder == "param-nonfun":
+                    f = F(L([S(name)], call), 5)
+                elif binder == "let-nonfun":
+                    f = [S("let*"), [[S(name), STR("not a function")]], call]
+                elif binder == "dotimes":
+                    f = [S("dotimes"), [S(name), 1], [S("probe"), Q(S("in-loop")), call]]
+                else:
+                    f = [S("macrolet"), [[S(name), [S("&rest"), S("r")], Q([S("list"), 0])]], call]
+                forms.append(f)
     H = [S("lambda"), [S("c"), S("&rest"), S("r")], [S("list"), Q(S("caught")), S("c")]]
     out = []
     for f in forms:
